@@ -943,7 +943,12 @@ def _load_data(rec, context):
     comps = [list(map(context.object, [cid, comp]))
              for cid, comp in rec['components']]
 
-    for icomp, (cid, comp) in enumerate(comps):
+    # A derived component cannot be the first component added to a dataset, so
+    # these are added last and the saved order is restored afterwards.
+    order = sorted(range(len(comps)), key=lambda i: isinstance(comps[i][1], DerivedComponent))
+
+    for icomp in order:
+        cid, comp = comps[icomp]
         if isinstance(comp, CoordinateComponent):
             comp._data = result
 
@@ -962,6 +967,8 @@ def _load_data(rec, context):
         # the component they define.
         if isinstance(comp, DerivedComponent):
             comp.link.set_to_id(cid)
+
+    result.reorder_components([cid for cid, comp in comps])
 
     assert result._world_component_ids == []
 
@@ -1415,7 +1422,12 @@ def _load_regiondata(rec, context):
 
     comps = [list(map(context.object, [cid, comp])) for cid, comp in rec["components"]]
 
-    for icomp, (cid, comp) in enumerate(comps):
+    # A derived component cannot be the first component added to a dataset, so
+    # these are added last and the saved order is restored afterwards.
+    order = sorted(range(len(comps)), key=lambda i: isinstance(comps[i][1], DerivedComponent))
+
+    for icomp in order:
+        cid, comp = comps[icomp]
         if isinstance(comp, CoordinateComponent):
             comp._data = result
 
@@ -1434,6 +1446,8 @@ def _load_regiondata(rec, context):
         # the component they define.
         if isinstance(comp, DerivedComponent):
             comp.link.set_to_id(cid)
+
+    result.reorder_components([cid for cid, comp in comps])
 
     assert result._world_component_ids == []
 
